@@ -369,6 +369,8 @@ def run_vcs(ctx: core.Ctx, vcs: List[VC], text_by_clause: Optional[Dict[str, str
                 backends.add(ob["backend"])
                 if len(c.samples) < 3:
                     c.samples.append({"obligation": ob["name"], "status": ob["status"], "backend": ob["backend"], "ms": ob["ms"], "paths": r["paths"]})
+                if os.environ.get("VERIF_SHOW") and ob.get("ms", 0) > 3000:
+                    print("SLOW %s: %s %s ms (%s)" % (ob["name"], ob["status"], ob.get("ms"), ob.get("backend")), file=sys.stderr)
                 if ob["status"] == "unsat":
                     c.discharged += 1
                 elif ob["status"] == "sat":
